@@ -144,10 +144,10 @@ def run(ctx):
         remote_every, pack_every, nfiles = 30, 8, 3
     else:
         plan = [("<=4 revisions, ghost", hc.gen_cfg(1, 4, 2, 1), L, True, True),
-                ("5 revisions", hc.gen_cfg(5, 5, 2, 0, 2, off), L, True, False),
-                ("5 revisions, ghost", hc.gen_cfg(5, 5, 2, 1, 12, off), L, True, False),
+                ("5 revisions", hc.gen_cfg(5, 5, 2, 0, 3, off), L, True, False),
+                ("5 revisions, ghost", hc.gen_cfg(5, 5, 2, 1, 16, off), L, True, False),
                 ("<=4 revisions, 3 parents, ghost", hc.gen_cfg(3, 4, 3, 1, 3, off), L, True, False),
-                ("6 revisions", hc.gen_cfg(6, 6, 2, 0, 60, off), L, True, False),
+                ("6 revisions", hc.gen_cfg(6, 6, 2, 0, 80, off), L, True, False),
                 ("30 seeded random graphs, 7-9 revisions, <= 3 parents, ghost", hc.gen_cfg(7, 9, 3, 1), L, True, False,
                  hc.random_graphs(ctx.rng, 30, 7, 9))]
         remote_every, pack_every, nfiles = 25, 6, 8
